@@ -45,7 +45,7 @@ def owner_of_callable(spec, kind, name):
     """Id of the node a stub callable belongs to (None if unknown)."""
     for n in spec["nodes"]:
         k = n["k"]
-        if kind in ("body", "callback", "effect") and k == "dataset":
+        if kind in ("body", "callback", "effect", "loghandler") and k == "dataset":
             base = name.split("#")[0]
             if n["name"] == base or any("fn" in impl and impl["fn"] == base for _, impl in n.get("overloads", [])):
                 return n["id"]
@@ -129,7 +129,8 @@ class C12(HistoryProperty):
         picks = [[rng.random(), rng.choice(EXC)] for _ in range(self.CAP[tier])]
         multi = tier == "thorough" and rng.random() < 0.3
         # (in a third of the histories the caller keeps ONE dictionary object and corrects it in place after a failure)
-        return {"cfg": cfg, "spec": spec, "ops": ops, "picks": picks, "multi": multi, "inplace": inplace, "no_immediate_retry": no_retry}
+        return {"cfg": cfg, "spec": spec, "ops": ops, "picks": picks, "multi": multi, "inplace": inplace, "no_immediate_retry": no_retry,
+                "log_handler": rng.random() < 0.25}  # a quarter of the histories run under a LogRequest handler of the user's
 
     # ------------------------------------------------------------------ one faulted run
     def _check_failure(self, res, world, obj, out, i, op, faults_desc):
@@ -210,7 +211,7 @@ class C12(HistoryProperty):
         spec, ops = case["spec"], case["ops"]
         fault_ops = sorted({a[0] for a in faults})
         desc = [list(a) + [x] for a, x in faults.items()]
-        wf = World(spec, faults=dict(faults), inplace=bool(case.get("inplace")))
+        wf = World(spec, faults=dict(faults), inplace=bool(case.get("inplace")), log_handler=bool(case.get("log_handler")))
         surfaced_all = True
         failed_ops = []
         outs = {}
@@ -290,7 +291,7 @@ class C12(HistoryProperty):
                     return
         if surfaced_all and failed_ops:
             # stores nothing: the same history with the failed ops deleted, on a second world
-            ws = World(spec, record=False, inplace=bool(case.get("inplace")))
+            ws = World(spec, record=False, inplace=bool(case.get("inplace")), log_handler=bool(case.get("log_handler")))
             for i, op in enumerate(ops):
                 if i in failed_ops:
                     continue
@@ -309,7 +310,7 @@ class C12(HistoryProperty):
         res = Result()
         spec, ops = case["spec"], case["ops"]
         with global_state_guard():
-            w0 = World(spec, inplace=bool(case.get("inplace")))
+            w0 = World(spec, inplace=bool(case.get("inplace")), log_handler=bool(case.get("log_handler")))
             out0 = [w0.do(op) for op in ops]
             calls = [(ev[1], ev[2], ev[3], ev[4]) for ev in w0.log.events if ev[0] == "call" and ev[2] != "backend"]
             res.stats["events"] = w0.log.seq
